@@ -280,6 +280,7 @@ theorem invM_step (s : Sys) (h : InvM s) (op : Op) : InvM (s.step op).1 := by
       · intro hu
         have : s.up = false := hu
         exact absurd (Or.inl (by simp [this])) hg
+  | regq => exact h
   | stop =>
     show InvM (s.stepStop).1
     unfold stepStop
